@@ -275,14 +275,15 @@ class Loop:
         return [p for p in self.paths if k is not None and p.fact(k) is True]
 
 
-_LOOPS: dict[int, Loop] = {}
+_LOOP: list[Any] = []  # [program, its Loop]: the program object is kept so that the cache entry cannot be
+#                         mistaken for a later program allocated at the same address
 
 
 def loop_of(prog: Program) -> Loop:
-    if id(prog) not in _LOOPS:
-        _LOOPS.clear()
-        _LOOPS[id(prog)] = Loop(prog)
-    return _LOOPS[id(prog)]
+    if not _LOOP or _LOOP[0] is not prog:
+        loop = Loop(prog)
+        _LOOP[:] = [prog, loop]
+    return _LOOP[1]
 
 
 def source_of(x: ast.AST) -> str | None:
@@ -711,9 +712,16 @@ def check_pool(run: Run, prog: Program) -> None:
                for t in s.targets if isinstance(t, ast.Name)]
     if set(members) != set(MEMBERSHIP):
         raise AnalysisError(f"ComponentStatusEnum members changed: {members}")
-    fn = prog.func(f"{POOL}._update_status")
+    # the function is found by its role — the method of the pool tracker that loops (`async for`) over status
+    # messages; its name only breaks a tie
+    cands = [m for m in prog.cls(POOL).methods.values() if any(isinstance(n, ast.AsyncFor) for n in ast.walk(m.node))]
+    if len(cands) > 1:
+        cands = [m for m in cands if m.name == "_update_status"]
+    if len(cands) != 1:
+        raise AnalysisError(f"{POOL}: expected one method with an `async for` over the status messages")
+    fn = cands[0]
     run.analysed(fn.qual)
-    ex = Exec(prog, fn)
+    ex = Exec(prog, fn, inline_all=True, max_depth=6)
     paths, _loop, _chain, _entry = iteration_paths(
         ex, fn, ex.initial(), lambda n: isinstance(n, ast.AsyncFor), "STATUS", "status loop")
     ident = "STATUS.component_id"
@@ -771,6 +779,8 @@ def check_pool(run: Run, prog: Program) -> None:
                   instance=f"{fn.qual}: membership after {value}")
     if all_ok and seen != set(members):  # nothing wrong found, but some status value is never told apart
         raise AnalysisError(f"{fn.qual}: no path handles exactly {sorted(set(members) - seen)}")
+    for f in ex.inlined.values():
+        run.analysed(f.qual)
     bad = first([p for p in paths if p.exit not in ("fall", "continue") or not any(
         i > max(membership(p, "working")[1], membership(p, "uncertain")[1]) for i, _c in p.calls(is_publish))])
     run.check(bad is None, "C16.POOL", fn.qual, "every update is published",
